@@ -43,6 +43,18 @@ def plan(tier, seed):
                     for oi, item in enumerate(S.override_menu(spec)):
                         if item[2] in ("auxdata", "sigmas", "factors"):
                             cases.append({"skel": c["skel"], "combo": c["combo"], "backend": be, "seed": seed, "ov": oi})
+    # curated 3-deviation specs (quick tier; thorough covers all of k=3): one Gaussian-constrained scalar (normsys/histosys/lumi) + one shapesys + one staterror,
+    # i.e. Gaussian and Poisson auxiliary entries interleaved in the auxiliary layout
+    if bk["numpy"] < 3:
+        for sk in ("B1", "B2"):
+            m = S.menu(sk)
+            fam = lambda pref: [i for i, it in enumerate(m) if it[0].split("@")[0].split(":")[0] in pref]
+            for a in fam(("normsys", "histosys", "lumi")):
+                for b in fam(("shapesys", "shapesys0")):
+                    for c_ in fam(("staterror", "staterror0nom")):
+                        combo = tuple(sorted((a, b, c_)))
+                        if S.build(sk, combo) is not None:
+                            cases.append({"skel": sk, "combo": list(combo), "backend": "numpy", "seed": seed, "ov": None})
     return dict(
         cases=cases,
         chunk=48,
